@@ -111,7 +111,7 @@ PROPS = {
     },
     'C03': {
         'extra_props': ['C02b', 'C00_pipeline'],
-        'ops': [('scan', 1500, 150000, ('-mix', 'c03')), ('scan', 200, 10000, ('-mix', 'c02')), ('scanseq', 60, 3000), ('pp', 30, 2000), ('aggregate', 300, 20000), ('html', 100, 5000), ('scan', 1000, 14424, ('-mix', 'kinds')), ('step', 400, 20000), ('sigops', 300, 10000), ('ast', 40, 400)],
+        'ops': [('scan', 1500, 150000, ('-mix', 'c03')), ('scan', 200, 10000, ('-mix', 'c02')), ('scanseq', 60, 3000), ('pp', 30, 2000), ('aggregate', 300, 20000), ('html', 100, 5000), ('scan', 1000, 25259, ('-mix', 'kinds')), ('step', 400, 20000), ('sigops', 300, 10000), ('ast', 40, 400)],
         'corr': ['corr:panic', 'corr:snap', 'corr:err', 'corr:seq', 'corr:step-trace'],
         'prop': ['C03'],
         'nontrivial': ['kind=', 'calls='],
@@ -139,14 +139,14 @@ PROPS = {
     },
     'C07': {
         'extra_props': ['C07c'],
-        'ops': [('scanseq', 200, 10000), ('scan', 200, 5000, ('-mix', 'c02')), ('pppipe', 10, 120), ('scan', 1500, 14424, ('-mix', 'kinds')), ('step', 600, 30000)],
-        'corr': ['corr:seq', 'corr:seqrest', 'corr:panic', 'corr:snap', 'corr:rest', 'corr:pp:pipe', 'corr:pp-exit:pipe', 'corr:step-trace', 'corr:step-sessions', 'corr:step-goroutines'],
-        'prop': ['C07', 'C02:region', 'C11:pp'],
+        'ops': [('scanseq', 200, 10000), ('scan', 200, 5000, ('-mix', 'c02')), ('pppipe', 10, 120), ('scan', 2200, 25259, ('-mix', 'kinds')), ('step', 600, 30000), ('pp', 40, 2000)],
+        'corr': ['corr:seq', 'corr:seqrest', 'corr:panic', 'corr:snap', 'corr:rest', 'corr:pp:pipe', 'corr:pp-exit:pipe', 'corr:pp:plain', 'corr:pp-exit:plain', 'corr:step-trace', 'corr:step-sessions', 'corr:step-goroutines'],
+        'prop': ['C07', 'C02:region', 'C02:pp', 'C11:pp'],
         'nontrivial': ['dumps=', 'kind=', 'sessions='],
         'input_fields': 1,
         'rule': 'streams J0 D1 J1 .. Dk Jk (k = 1..4 dumps / race reports, all variants, junk lines that can neither start a dump nor be swallowed), scanned with the documented resume protocol '
                 '(MultiReader(suffix, rest), continuing after scan errors); one snapshot per dump equal to scanning the dump alone, all other bytes forwarded once and in order; '
-                'mix kinds: sequences of 24 representative line kinds of both grammars (quick: 1500 random sequences of length <= 7; thorough: ALL sequences of length <= 3) through implementation and model; pppipe: the pp binary fed through a pipe that stays open; '
+                'mix kinds: sequences of 29 representative line kinds of both grammars (quick: 1500 random sequences of length <= 7; thorough: ALL sequences of length <= 3) through implementation and model; pppipe: the pp binary fed through a pipe that stays open; '
                 'step (hook VerifStepper): scanningState.scan driven line by line under the ScanSnapshot/resume protocol, the state, consumed flag and error of EVERY line compared with the model scan (whose control is proved equal to the reference automaton Spec/RefGrammar.ref_step, C07c)',
     },
     'C10': {
@@ -219,9 +219,9 @@ PROPS = {
     },
     'C20': {
         'race_driver': True,
-        'ops': [('handler', 150, 5000), ('live', 25, 600)],
+        'ops': [('handler', 150, 5000), ('live', 25, 600), ('scan', 150, 5000, ('-mix', 'c01'))],
         'corr': ['corr:handler', 'corr:snap', 'corr:err', 'corr:panic'],
-        'prop': ['C20', 'C01:snapshot'],
+        'prop': ['C20', 'C01'],
         'nontrivial': ['status=', 'live'],
         'input_fields': 4,
         'rule': 'webstack.SnapshotHandler under httptest over method x maxmem x augment x similarity values (valid, invalid, signed, padded, overflowing): status class must equal the model decision table, a 200 page must tokenise, '
